@@ -51,7 +51,7 @@ def _chunks(l, n):
     return [l[i:i + k] for i in range(0, len(l), k)]
 
 
-def _run_harness_shard(cases, workdir, shard, timeout_per_case=5.0):
+def _run_harness_shard(cases, workdir, shard, timeout_per_case=5.0, env=None):
     """Supervised run: an abort (stack overflow, SIGABRT) or a hang is attributed to the case that was
     announced last, and the run resumes after it."""
     results = {}
@@ -73,7 +73,8 @@ def _run_harness_shard(cases, workdir, shard, timeout_per_case=5.0):
                                    "1" if c.emit_version else "0", "1" if c.files else "0",
                                    enc.hexopts(c.opts)]) + "\n")
         scratch = os.path.join(workdir, "scratch_%d" % shard)
-        proc = subprocess.Popen([HARNESS, tsv, scratch], stdout=subprocess.PIPE, stderr=subprocess.DEVNULL)
+        proc = subprocess.Popen([HARNESS, tsv, scratch], stdout=subprocess.PIPE, stderr=subprocess.DEVNULL,
+                                env=(dict(os.environ, **env) if env else None))
         try:
             out, _ = proc.communicate(timeout=30 + timeout_per_case * len(todo))
             timed_out = False
@@ -386,14 +387,15 @@ def run_valid_spec(cases):
     return res
 
 
-def run_impl_only(cases):
-    """implementation only (metamorphic companions)"""
+def run_impl_only(cases, env=None):
+    """implementation only (metamorphic companions); env: extra environment of the harness process"""
     workdir = tempfile.mkdtemp(prefix="runi_", dir=os.path.join(BUILD, "scratch"))
     try:
         shards = _chunks(cases, NPROC)
         impl = {}
         with ThreadPoolExecutor(max_workers=NPROC) as ex:
-            fi = [ex.submit(_run_harness_shard, s, os.path.join(workdir, "h%d" % i), i) for i, s in enumerate(shards)]
+            fi = [ex.submit(_run_harness_shard, s, os.path.join(workdir, "h%d" % i), i, 5.0, env)
+                  for i, s in enumerate(shards)]
             for f in fi:
                 impl.update(f.result())
         return impl
